@@ -221,17 +221,19 @@ func (s *site) streamAudit(ck *sto.Checker) {
 		}
 		s.r.Eval(1)
 	}
+	// StreamBlobs is not named by the statement: how often a present blob is yielded is
+	// counted, not judged
 	for ref := range ck.Present {
 		if ck.Uncertain[ref] {
 			continue
 		}
 		switch n := count[ref]; {
 		case n == 0:
-			s.viol("stream-missing/"+s.tail(), fmt.Sprintf("StreamBlobs does not yield present blob %v", ref))
-			return
+			s.r.Count("stream_misses_present_blob", 1)
 		case n > 1:
-			s.viol("stream-dup/"+s.dupCause(ref)+"/"+s.tail(), fmt.Sprintf("StreamBlobs yields present blob %v %d times", ref, n))
-			return
+			s.r.Count("stream_dup:"+s.dupCause(ref), 1)
+		default:
+			s.r.Count("stream_once", 1)
 		}
 	}
 }
@@ -313,6 +315,7 @@ func (s *site) wholeAudit(st blobserver.Storage, rng *rand.Rand, must map[blob.R
 func compareStream(r io.Reader, want []byte) (n int64, same bool, err error) {
 	buf := make([]byte, 256<<10)
 	same = true
+	idle := 0
 	for {
 		k, rerr := r.Read(buf)
 		if k > 0 {
@@ -330,7 +333,12 @@ func compareStream(r io.Reader, want []byte) (n int64, same bool, err error) {
 			return n, same, rerr
 		}
 		if k == 0 {
+			if idle++; idle > 10000 {
+				return n, same, errors.New("the reader keeps returning 0 bytes and no error")
+			}
 			runtime.Gosched()
+		} else {
+			idle = 0
 		}
 	}
 	if n != int64(len(want)) {
